@@ -202,5 +202,5 @@ rect:
 		r.col.Exhaustive("C16 rectangle: all (len 0-64) x (MTU 1-70) x 4 fill patterns for G711/G722; all len 0-64 for Opus/OpusPacket", envShards == 1)
 		r.col.AddSample("rectangle", map[string]any{"codec": "g711", "len": 64, "mtu": 7, "pattern": "ramp", "note": fmt.Sprintf("one of %d enumerated cases in this shard", total)})
 	}
-	subC16.rapidRun(r, n(15000, 200000), genAudioCase)
+	subC16.rapidRun(r, n(15000, 1500000), genAudioCase)
 }
